@@ -49,8 +49,20 @@ REAL_VS_STUB = {
 EXPECTED_PROBES = ('step:catalog', 'cycle-reclaimed:custom-metadata-childless', 'cycle-reclaimed:custom-entries', 'cycle-reclaimed:dict-key', 'cycle-reclaimed:defaultdict-factory', 'cycle-reclaimed:namedtuple-class', 'step:create', 'step:mutate_source', 'step:mutate_handout', 'step:operand', 'step:registry', 'step:drop_tree',
                    'step:gc', 'step:cycle', 'operand:failed', 'operand:ok', 'leaf-release-checked', 'cycle-reclaimed')
 
-ROUTES = ('flatten', 'structure', 'with_path', 'with_accessor', 'child', 'children', 'one_level', 'transform', 'compose',
+ROUTES = ('dataclass', 'dataclass', 'flatten', 'structure', 'with_path', 'with_accessor', 'child', 'children', 'one_level', 'transform', 'compose',
           'common_suffix', 'pickle', 'deepcopy', 'ctor_tuple', 'ctor_dict', 'from_collection', 'iter_rebuild')
+
+
+import optree.dataclasses as _odc  # noqa: E402
+
+
+@_odc.dataclass(namespace='ns')
+class DC:
+    """Importable (picklable) node whose flatten / unflatten functions are supplied by optree.dataclasses; registered once, in
+    the zygote, so every run starts with it."""
+    x: object
+    y: object = None
+    name: str = _odc.field(default='n', pytree_node=False)
 
 
 def tier_config(tier):
@@ -75,7 +87,7 @@ def warmup():
 
 
 class Entry:
-    __slots__ = ('spec', 'obs', 'tree', 'leaves', 'route', 'sentinels')
+    __slots__ = ('spec', 'obs', 'tree', 'leaves', 'route', 'sentinels', 'born_changed')
 
     def __init__(self, spec, tree, leaves, route):
         self.spec = spec
@@ -83,6 +95,10 @@ class Entry:
         self.leaves = leaves
         self.route = route
         self.sentinels = [U.Leaf(10000 + i) for i in range(spec.num_leaves)]
+        # the FIRST observation uses other leaves than the later ones, so that state written into the treespec by an unflatten
+        # (e.g. into its metadata) shows up as a difference between observations
+        first = observe(spec, [U.Leaf(15000 + i) for i in range(spec.num_leaves)])
+        self.born_changed = first['changed-by-unflatten']
         self.obs = observe(spec, self.sentinels)
 
 
@@ -91,13 +107,17 @@ def built_by(tree):
 
 
 def observe(spec, sentinels):
+    # unflatten is itself an operation that must not change the treespec: look before and after it
+    pre = (repr(spec), hash(spec), repr(spec.paths()))
     try:
         rebuilt = spec.unflatten(sentinels)
         un = (gen.describe(rebuilt), built_by(rebuilt))
     except Exception as e:  # noqa: BLE001
         un = ('unflatten raised', type(e).__name__)
+    post = (repr(spec), hash(spec), repr(spec.paths()))
     ch = spec.children()
     return {
+        'changed-by-unflatten': None if pre == post else 'repr %s -> %s' % (pre[0], post[0]),
         'repr': repr(spec), 'str': str(spec), 'hash': hash(spec), 'paths': repr(spec.paths()), 'accessors': repr(spec.accessors()),
         'entries': repr(spec.entries()), 'children': [repr(c) for c in ch], 'child': [repr(spec.child(i)) for i in range(len(ch))],
         'one_level': repr(spec.one_level()), 'counts': (spec.num_leaves, spec.num_nodes, spec.num_children),
@@ -155,7 +175,10 @@ def run_job(job, io):
     def add(spec, tree, leaves, route):
         if len(pool) >= 8:
             pool.pop(tape.draw(len(pool), 'evict'))
-        pool.append(Entry(spec, tree, leaves, route))
+        ent = Entry(spec, tree, leaves, route)
+        if ent.born_changed or ent.obs['changed-by-unflatten']:
+            viol('spec-changed', 'unflatten:%s' % route.split('-')[0], 'unflatten changed the treespec it was called on (made via %s): %s' % (route, ent.born_changed or ent.obs['changed-by-unflatten']))
+        pool.append(ent)
 
     def pick():
         return pool[tape.draw(len(pool), 'pick')] if pool else None
@@ -183,7 +206,14 @@ def run_job(job, io):
                 tree, kw = new_tree()
                 before = clone(tree)
                 leaves = None
-                if route == 'flatten':
+                if route == 'dataclass':
+                    # a node kind whose flatten / unflatten functions are supplied by optree itself (optree.dataclasses)
+                    inner = DC(ctx.leaf(), [ctx.leaf(), tree], name='meta-%d' % tape.draw(3, 'dc-name'))
+                    tree = {'d': inner, 'e': DC(ctx.leaf(), None)} if tape.draw(2, 'dc-wrap') else inner
+                    before = clone(tree)
+                    leaves, spec = optree.tree_flatten(tree, **kw)
+                    inner = None
+                elif route == 'flatten':
                     leaves, spec = optree.tree_flatten(tree, **kw)
                 elif route == 'structure':
                     spec = optree.tree_structure(tree, **kw)
